@@ -102,6 +102,8 @@ pub fn run(suite: &str, seed: u64, n: usize, corpus: Option<&Path>) -> Vec<Case>
         "strong" => strong(seed, n, corpus, false),
         "strong_text" => strong(seed, n, corpus, true),
         "tptp" => tptp(seed, n, corpus),
+        "files" => files(seed, n),
+        "status" => status(seed, n),
         "external" => external(seed, n, corpus, false),
         "external_text" => external(seed, n, corpus, true),
         "substitute" => substitute(seed, n, corpus),
@@ -797,6 +799,114 @@ fn external(seed: u64, n: usize, corpus: Option<&Path>, text: bool) -> Vec<Case>
         });
         let nontrivial = !imp.starts_with("(error");
         cases.push(Case { req, nontrivial, imp, tag: if text { "external_text" } else { "external" }, origin: t.origin });
+    }
+    cases
+}
+
+// ------------------------------------------------------------------ files
+
+enum FT { File(String), Dir(String, Vec<FT>) }
+
+fn ft_sexp(t: &FT) -> String {
+    match t {
+        FT::File(n) => format!("(f {})", sexp::q(n)),
+        FT::Dir(n, cs) => format!("(d {} {})", sexp::q(n), sexp::list(cs.iter().map(ft_sexp))),
+    }
+}
+
+fn ft_create(root: &Path, t: &FT) {
+    match t {
+        FT::File(n) => { std::fs::write(root.join(n), "").unwrap(); }
+        FT::Dir(n, cs) => {
+            let d = root.join(n);
+            std::fs::create_dir_all(&d).unwrap();
+            for c in cs { ft_create(&d, c); }
+        }
+    }
+}
+
+fn gen_ft(rng: &mut Rng, depth: usize, used: &mut Vec<String>) -> FT {
+    const STEMS: &[&str] = &["a", "b", "prog", "z", "A", "x1", "x10", "x2", "left", "right", "m.n", "", ".hidden", "lp", "spec"];
+    const EXTS: &[&str] = &[".lp", ".lp", ".lp", ".spec", ".ug", ".po", ".txt", "", ".LP", ".lp.bak", ".", ".po.lp"];
+    loop {
+        let name = format!("{}{}", rng.pick(STEMS), rng.pick(EXTS));
+        if name.is_empty() || name == "." || name == ".." || used.contains(&name) { continue; }
+        used.push(name.clone());
+        if depth > 0 && rng.chance(1, 4) {
+            let k = rng.below(5);
+            let mut inner = vec![];
+            let cs = (0..k).map(|_| gen_ft(rng, depth - 1, &mut inner)).collect();
+            return FT::Dir(name, cs);
+        }
+        return FT::File(name);
+    }
+}
+
+fn files(seed: u64, n: usize) -> Vec<Case> {
+    let mut cases = vec![];
+    let mut rng = Rng::new(seed ^ 0x99AA);
+    let scratch = std::env::current_dir().unwrap().join("work").join(format!("files_scratch_{}", std::process::id()));
+    for i in 0..n {
+        let root = scratch.join(format!("c{i}"));
+        std::fs::create_dir_all(&root).unwrap();
+        let k = 1 + rng.below(5);
+        let mut used = vec![];
+        let args: Vec<FT> = (0..k).map(|_| gen_ft(&mut rng, 2, &mut used)).collect();
+        for a in &args { ft_create(&root, a); }
+        let req = format!("(files_sort {})", sexp::list(args.iter().map(ft_sexp)));
+        let paths: Vec<std::path::PathBuf> = args.iter().map(|a| root.join(match a { FT::File(n) | FT::Dir(n, _) => n })).collect();
+        let rootc = root.clone();
+        let imp = guarded(move || {
+            let rel = |p: &std::path::PathBuf| sexp::q(&p.strip_prefix(&rootc).unwrap().to_string_lossy());
+            let opt = |p: Option<&std::path::PathBuf>| p.map(rel).unwrap_or_else(|| "none".into());
+            match Files::sort(paths) {
+                Ok(f) => format!("({} {} {} {} {} {} {} {} {} {} {})",
+                    sexp::list(f.programs.iter().map(rel)), sexp::list(f.specifications.iter().map(rel)),
+                    sexp::list(f.user_guides.iter().map(rel)), sexp::list(f.proof_outlines.iter().map(rel)),
+                    sexp::list(f.other.iter().map(rel)), opt(f.left()), opt(f.right()),
+                    match f.specification() { Some(either::Either::Right(s)) => format!("(spec {})", rel(s)), Some(either::Either::Left(p)) => format!("(prog {})", rel(p)), None => "none".into() },
+                    opt(f.program()), opt(f.user_guide()), opt(f.proof_outline())),
+                Err(_) => "(error)".into(),
+            }
+        });
+        let _ = std::fs::remove_dir_all(&root);
+        cases.push(Case { req, nontrivial: true, imp, tag: "files", origin: format!("seed:{seed}:{i}") });
+    }
+    let _ = std::fs::remove_dir_all(&scratch);
+    cases
+}
+
+// ------------------------------------------------------------------ SZS status
+
+fn status(seed: u64, n: usize) -> Vec<Case> {
+    use anthem::verif::prover::{Failure, Status, StatusExtractionError, Success};
+    use std::str::FromStr;
+    let mut cases = vec![];
+    let mut rng = Rng::new(seed ^ 0x5757);
+    const WORDS: &[&str] = &["Theorem", "Theorem", "CounterSatisfiable", "ContradictoryAxioms", "Timeout", "MemoryOut", "GaveUp", "Error", "Unknown", "Theorems", "theorem", "Satisfiable", "", "Theo rem", "Theorem_1", "Th\u{e9}orem"];
+    const PIECES: &[&str] = &["% ", "SZS status ", "SZS  status ", "SZS status", " for ", " for", "for ", "\n", "% Refutation found.\n", "forward_0", "backward_problem_1", "", " ", "SZS status Theorem", "szs status Theorem for x", "\t", "% SZS output start\n"];
+    for i in 0..n {
+        let mut out = String::new();
+        let k = rng.below(5);
+        for _ in 0..k {
+            match rng.below(4) {
+                0 | 1 => out.push_str(&format!("{}SZS status {} for {}\n", if rng.chance(1, 2) { "% " } else { "" }, rng.pick(WORDS), rng.pick(&["forward_0", "p", "", "a b"]))),
+                _ => { for _ in 0..(1 + rng.below(4)) { let a: &str = *rng.pick(PIECES); out.push_str(a); let b: &str = *rng.pick(WORDS); out.push_str(b); } }
+            }
+        }
+        let o = out.clone();
+        let imp = guarded(move || match Status::from_str(&o) {
+            Ok(Status::Success(Success::Theorem)) => "(ok theorem)".into(),
+            Ok(Status::Success(Success::CounterSatisfiable)) => "(ok counterSatisfiable)".into(),
+            Ok(Status::Success(Success::ContradictoryAxioms)) => "(ok contradictoryAxioms)".into(),
+            Ok(Status::Failure(Failure::TimeOut)) => "(ok timeout)".into(),
+            Ok(Status::Failure(Failure::MemoryOut)) => "(ok memoryOut)".into(),
+            Ok(Status::Failure(Failure::GaveUp)) => "(ok gaveUp)".into(),
+            Ok(Status::Failure(Failure::Error)) => "(ok error)".into(),
+            Err(StatusExtractionError::Missing) => "missing".into(),
+            Err(StatusExtractionError::Unknown(w)) => format!("(unknown {})", sexp::q(&w)),
+        });
+        cases.push(Case { req: format!("(status_of {})", sexp::q(&out)), nontrivial: imp != "missing", imp, tag: "status", origin: format!("seed:{seed}:{i}") });
     }
     cases
 }
